@@ -1102,4 +1102,88 @@ theorem partsFold_none_iff : ∀ (rhs : List RSym) (acc : List (List RSym)),
       obtain ⟨a1, h1⟩ := this
       simp only [h1, Option.bind_some, ih, List.mem_cons, reduceCtorEq, false_or]
 
+/-! ### the refined fold computes the parts of `KS.compileParts` -/
+
+def embedPart : KPart → List RSym
+  | .ts run => run.map RSym.t
+  | .nt A => [.n A]
+
+/-- the last part, if it ends with a terminal -/
+def endsT (acc : List (List RSym)) : Option (List RSym) :=
+  match acc.getLast? with
+  | some last => if (last.getLast?.map RSym.isT) == some true then some last else none
+  | none => none
+
+def joinParts (acc : List (List RSym)) (ps : List KPart) : List (List RSym) :=
+  match endsT acc, ps with
+  | some last, .ts run :: ps' => acc.dropLast ++ [last ++ run.map RSym.t] ++ ps'.map embedPart
+  | _, _ => acc ++ ps.map embedPart
+
+theorem partsStep_t (acc : List (List RSym)) (a : Nat) :
+    partsStep acc (.t a) = some (match endsT acc with
+      | some last => acc.dropLast ++ [last ++ [.t a]]
+      | none => acc ++ [[.t a]]) := by
+  unfold partsStep endsT
+  cases acc.getLast? with
+  | none => rfl
+  | some last =>
+    simp only
+    split <;> rfl
+
+theorem endsT_push_n (acc : List (List RSym)) (A : Nat) : endsT (acc ++ [[.n A]]) = none := by
+  simp [endsT, RSym.isT]
+
+theorem endsT_push_t (acc : List (List RSym)) (a : Nat) : endsT (acc ++ [[.t a]]) = some [.t a] := by
+  simp [endsT, RSym.isT]
+
+theorem endsT_extend (acc : List (List RSym)) (last : List RSym) (a : Nat) :
+    endsT (acc ++ [last ++ [.t a]]) = some (last ++ [.t a]) := by
+  simp [endsT, RSym.isT]
+
+theorem partsFold_compileParts : ∀ (ss : List Sym) (acc : List (List RSym)),
+    (ss.map embedSym).foldlM partsStep acc = some (joinParts acc (compileParts ss)) := by
+  intro ss
+  induction ss with
+  | nil =>
+    intro acc
+    simp only [List.map_nil, List.foldlM_nil, compileParts, joinParts]
+    cases endsT acc <;> simp
+  | cons s ss ih =>
+    intro acc
+    rw [List.map_cons, foldlM_option_cons]
+    cases s with
+    | n A =>
+      have hstep : partsStep acc (embedSym (.n A)) = some (acc ++ [[.n A]]) := rfl
+      rw [hstep, Option.bind_some, ih]
+      simp only [compileParts, joinParts, endsT_push_n]
+      cases endsT acc <;> simp [embedPart]
+    | t a =>
+      have hstep : partsStep acc (embedSym (.t a)) = _ := partsStep_t acc a
+      rw [hstep, Option.bind_some, ih]
+      simp only [compileParts]
+      cases hacc : endsT acc with
+      | none =>
+        simp only [joinParts, endsT_push_t, hacc]
+        cases compileParts ss with
+        | nil => simp [embedPart]
+        | cons p ps =>
+          cases p with
+          | ts run => simp [embedPart]
+          | nt A => simp [embedPart]
+      | some last =>
+        simp only [joinParts, endsT_extend, hacc]
+        cases compileParts ss with
+        | nil => simp [embedPart]
+        | cons p ps =>
+          cases p with
+          | ts run => simp [embedPart]
+          | nt A => simp [embedPart]
+
+
+/-- On the framework's symbols the refined model of the grouping fold yields exactly the parts of
+    `KS.compileParts` (the function the FIRST/FOLLOW models and their differential ties use). -/
+theorem partsOf_embed (ss : List Sym) : partsOf (ss.map embedSym) = some ((compileParts ss).map embedPart) := by
+  have := partsFold_compileParts ss []
+  simpa [partsOf, joinParts, endsT] using this
+
 end ParolModel.Panic
